@@ -725,7 +725,7 @@ func c01Gen(g *Gen) {
 			// doubles: +-0, +-inf, quiet/signalling NaNs with payloads, subnormals, 1.0
 			0x7ff0000000000000, 0xfff0000000000000, 0x7ff8000000000000, 0x7ff0000000000001, 0x7ff4000000000000, 0xfff8000000000001,
 			0x7fffffffffffffff, 0xffffffffffffffff, 0x7ff00000deadbeef, 0x0000000000000001, 0x000fffffffffffff, 0x3ff0000000000000)
-		for i := 0; i < g.Scale(600, 20000); i++ {
+		for i := 0; i < g.Scale(3000, 20000); i++ {
 			out = append(out, g.R.Uint64())
 		}
 		return out
@@ -850,7 +850,7 @@ func c01Gen(g *Gen) {
 		}
 		return Ls(I(12), I(g.R.Intn(256)-128), I64(int64(g.R.Intn(1000))))
 	}
-	for i := 0; i < g.Scale(900, 30000); i++ {
+	for i := 0; i < g.Scale(2500, 30000); i++ {
 		n := 1 + g.R.Intn(10)
 		var items []V
 		for j := 0; j < n; j++ {
@@ -943,7 +943,7 @@ func c01Gen(g *Gen) {
 	}
 	// random bytes, random kinds
 	allKinds := []int{0, 1, 2, 3, 4, 5, 6, 7, 8, 10, 11, 12}
-	for i := 0; i < g.Scale(1200, 40000); i++ {
+	for i := 0; i < g.Scale(4000, 40000); i++ {
 		n := g.R.Intn(24)
 		d := make([]byte, n)
 		for j := range d {
